@@ -122,3 +122,13 @@ def run_case(rng, tier, case):
             nontrivial = True
     case.event('optimize', rec.counts['optimize'])
     case.nontrivial = nontrivial
+
+
+def _is_f23(v, rec):
+    # solver choice 'SCIPY' on a MIP: cvxpy's SCIPY (HiGHS) interface reports 'infeasible' for feasible mixed-integer problems
+    # (the same problem is solved by SCIP, by the default solver and by scipy.optimize.milp called directly)
+    return (v.get('clause') == 'opt.failure_means_infeasible' and v.get('solver') == 'SCIPY' and (v.get('n_bool') or 0) > 0
+            and v.get('reference') == 'optimal')
+
+
+CLASSIFIERS = {'c03_cvxpy_scipy_mip_false_infeasible': _is_f23}
